@@ -92,6 +92,9 @@ CHECKS = {
  "C33": ("cyphermon", "exploration", "differential monitor: limited vs unlimited run of generated queries under limits set around the true sizes; emitted-row counter hook for bounded extra work; huge-bound watchdog for the soft timeout",
          "Held on the generated (query, options) pairs: a limited run returned exactly the unlimited result or a ResourceLimitExceeded error; after a row-limit trip at most limit+1 rows had been emitted; effectively infinite queries stopped within the bound after the soft timeout.",
          "Only 'never stops' is decided by the clock.", "DESIGN.md §4.4 C33"),
+ "C34": ("cyphermon", "exploration", "differential monitor in child processes: the same generated statements and parameters on two copies of one database, one through the Rust API and one through the C ABI (ndb_query, statement API, ndb_execute_write, explicit transactions); fixed Value->JSON mapping, change counts, content through both APIs, error category by the engine's message convention, entry-point acceptance judged against the generator's knowledge of what it generated, exit status of the child",
+         "Held on the generated statements: rows and values equal as multisets under the fixed mapping through ndb_query and the statement API; change counts and final database content equal; error categories equal where the Rust error carries a category; read entry points refused every generated update (top level, FOREACH, CALL {}, UNION arms) without effect and write entry points refused statements without updates; no C API call terminated the process.",
+         "Non-finite floats have no JSON form and are only required not to become numbers; row order and which rows SKIP/LIMIT keep are not compared; errors whose message has no category prefix are not compared.", "DESIGN.md §4.4 C34"),
  "C13": ("cyphermon", "exploration", "differential monitor through the C API: script with a constructed failing statement vs the same script without it, auto-commit and explicit-transaction modes, uid-keyed content comparison",
          "Held on the generated scripts: a statement failing at a generated row (runtime type errors, refused deletes, compile errors) left the final content equal to the run without it, in ndb_execute_write and inside ndb_begin_write/ndb_txn_query/ndb_txn_commit.",
          "A constructed statement that does not fail is not judged.", "DESIGN.md §4.4 C13"),
